@@ -16,6 +16,9 @@ func (c *fnCtx) call(v *ast.CallExpr, pre *[]fnBind, want []string) ([]string, [
 	if cal := c.g.calleeOf(c.fn, v); cal != nil {
 		return c.callTranslated(cal, v, pre, want)
 	}
+	if fv, m := c.objCallOf(v); fv != nil {
+		return c.objCall(fv, m, v, pre, want)
+	}
 	switch f := v.Fun.(type) {
 	case *ast.Ident:
 		if f.Obj == nil { // builtin or conversion
@@ -30,6 +33,9 @@ func (c *fnCtx) call(v *ast.CallExpr, pre *[]fnBind, want []string) ([]string, [
 					x, t := c.expr(v.Args[0], pre)
 					if t.k == "slice" || t.k == "string" {
 						return one("(zlen "+paren(x)+")", tyInt)
+					}
+					if t.k == "map" {
+						return one("(go_map_len "+c.mapEqb(t, v)+" "+paren(x)+")", tyInt)
 					}
 					if t.k == "view" {
 						return one("(vlen "+paren(x)+")", tyInt)
@@ -116,7 +122,8 @@ func (c *fnCtx) callValue(x *fnVar, v *ast.CallExpr, pre *[]fnBind) ([]string, [
 	}
 	s := x.name
 	for _, a := range v.Args {
-		y, _ := c.expr(a, pre)
+		y, yt := c.expr(a, pre)
+		c.noAlias(a, yt)
 		s += " " + paren(y)
 	}
 	if len(x.typ.res) == 1 {
@@ -179,6 +186,7 @@ func (c *fnCtx) callTranslated(cal *fnFunc, v *ast.CallExpr, pre *[]fnBind, want
 		if yt.k == "view" {
 			c.lostAt(a, "slice argument %s (elements needed)", src(a))
 		}
+		c.noAlias(a, yt)
 		s += " " + paren(y)
 	}
 	for _, e := range cal.extras {
@@ -194,11 +202,12 @@ func (c *fnCtx) callTranslated(cal *fnFunc, v *ast.CallExpr, pre *[]fnBind, want
 		}
 		s += " " + x.name
 	}
-	if cal.needZero {
-		if c.zero == nil {
-			c.lostAt(v, "call of %s (zero value)", cal.name)
+	for _, z := range cal.zeroTypes {
+		zv := c.zeros[z]
+		if zv == nil {
+			c.lostAt(v, "call of %s (zero value of %s)", cal.name, z)
 		}
-		s += " " + c.zero.name
+		s += " " + zv.name
 	}
 	if cal.fuel {
 		s += " fuel"
@@ -356,7 +365,10 @@ func (c *fnCtx) stmt(s ast.Stmt, k func() term) term {
 					}
 				}
 			}
-			c.lostAt(v, "panic argument %s (only a plain string literal)", src(call.Args[0]))
+			if m, ok := c.sprintfPanic(call); ok {
+				return tRaw{"Panic (PMsg \"" + m + "\")"}
+			}
+			c.lostAt(v, "panic argument %s (only a plain string literal, or fmt.Sprintf of a literal format and effect-free arguments)", src(call.Args[0]))
 		}
 		call, ok := v.X.(*ast.CallExpr)
 		if !ok {
@@ -366,10 +378,25 @@ func (c *fnCtx) stmt(s ast.Stmt, k func() term) term {
 		if l := c.loggedCall(call); l != nil {
 			var xs []string
 			for _, a := range call.Args {
-				x, _ := c.expr(a, &pre)
+				x, xt := c.expr(a, &pre)
+				c.noAlias(a, xt)
 				xs = append(xs, x)
 			}
 			pre = append(pre, fnBind{pat: l.name, e: l.name + " ++ [" + tuple(xs) + "]", isLet: true})
+			return wrap(pre, k())
+		}
+		if fv, m := c.objCallOf(call); fv != nil {
+			// results are dropped
+			c.objCall(fv, m, call, &pre, nil)
+			return wrap(pre, k())
+		}
+		if id, ok := call.Fun.(*ast.Ident); ok && id.Name == "delete" && id.Obj == nil && len(call.Args) == 2 {
+			x := c.plainVar(call.Args[0])
+			if x == nil || x.typ.k != "map" {
+				c.lostAt(v, "delete from %s (must be a map variable or field)", src(call.Args[0]))
+			}
+			key, _ := c.expr(call.Args[1], &pre)
+			pre = append(pre, fnBind{pat: x.name, e: "go_map_del " + c.mapEqb(x.typ, v) + " " + x.name + " " + paren(key), isLet: true, effect: true})
 			return wrap(pre, k())
 		}
 		if cal := c.g.calleeOf(c.fn, call); cal != nil {
@@ -612,11 +639,51 @@ func (c *fnCtx) assign(v *ast.AssignStmt, k func() term) term {
 		rhs := &ast.BinaryExpr{X: v.Lhs[0], Op: op, Y: &ast.ParenExpr{X: v.Rhs[0]}, OpPos: v.TokPos}
 		return c.assign(&ast.AssignStmt{Lhs: v.Lhs, Tok: token.ASSIGN, Rhs: []ast.Expr{rhs}, TokPos: v.TokPos}, k)
 	}
+	// v, ok := m[k]
+	if len(v.Rhs) == 1 && len(v.Lhs) == 2 {
+		if ix, ok := v.Rhs[0].(*ast.IndexExpr); ok {
+			m, mt := c.expr(ix.X, &pre)
+			if mt.k != "map" {
+				c.lostAt(v, "multi-valued right-hand side")
+			}
+			key, _ := c.expr(ix.Index, &pre)
+			var pats []string
+			for i, l := range v.Lhs {
+				t := mt.elem
+				if i == 1 {
+					t = tyBool
+				}
+				if x := c.target(l, v, t); x != nil {
+					pats = append(pats, x.name)
+				} else {
+					pats = append(pats, "_")
+				}
+			}
+			pre = append(pre, fnBind{pat: tuple(pats), e: "go_map_get2 " + c.mapEqb(mt, v) + " " + paren(c.zeroOf(mt.elem, v)) + " " + paren(m) + " " + paren(key), isLet: true})
+			return wrap(pre, k())
+		}
+	}
 	// a, b := f(x)
 	if len(v.Rhs) == 1 && len(v.Lhs) > 1 {
 		call, ok := v.Rhs[0].(*ast.CallExpr)
 		if !ok {
 			c.lostAt(v, "multi-valued right-hand side")
+		}
+		if fv, m := c.objCallOf(call); fv != nil {
+			ft := c.objMethodType(fv, m, call)
+			if len(ft.res) != len(v.Lhs) {
+				c.lostAt(v, "assignment arity")
+			}
+			var want []string
+			for i, l := range v.Lhs {
+				if x := c.target(l, v, ft.res[i]); x != nil {
+					want = append(want, x.name)
+				} else {
+					want = append(want, "_")
+				}
+			}
+			c.objCall(fv, m, call, &pre, want)
+			return wrap(pre, k())
 		}
 		cal := c.g.calleeOf(c.fn, call)
 		var want []string
@@ -779,6 +846,21 @@ func (c *fnCtx) target(l ast.Expr, st *ast.AssignStmt, t *fnType) *fnVar {
 
 func (c *fnCtx) assign1(st *ast.AssignStmt, l, r ast.Expr, k func() term) term {
 	var pre []fnBind
+	// x.f = e on a struct-valued variable or field
+	if sel, ok := l.(*ast.SelectorExpr); ok && !c.isRecv(sel.X) {
+		return c.structStore(st, sel, r, k)
+	}
+	// m[k] = e
+	if ix, ok := l.(*ast.IndexExpr); ok {
+		if x := c.plainVar(ix.X); x != nil && x.typ.k == "map" {
+			// Go evaluates the index operand and the right-hand side, then stores
+			key, _ := c.expr(ix.Index, &pre)
+			e, et := c.expr(r, &pre)
+			c.noAlias(r, et)
+			pre = append(pre, fnBind{pat: x.name, e: "go_map_set " + c.mapEqb(x.typ, st) + " " + x.name + " " + paren(key) + " " + paren(e), isLet: true, effect: true})
+			return wrap(pre, k())
+		}
+	}
 	// s[i] = e
 	if ix, ok := l.(*ast.IndexExpr); ok {
 		x := c.plainVar(ix.X)
@@ -884,6 +966,17 @@ func (c *fnCtx) assign1(st *ast.AssignStmt, l, r ast.Expr, k func() term) term {
 				pre = append(pre, fnBind{pat: lv.name, e: lv.name + " ++ [" + strings.Join(xs, "; ") + "]", isLet: true})
 				return wrap(pre, k())
 			case "make":
+				if mt, isMap := call.Args[0].(*ast.MapType); isMap {
+					// make(map[K]V): the empty map
+					if len(call.Args) != 1 {
+						c.lostAt(st, "make of a map with a size hint")
+					}
+					t := c.goType(mt)
+					if x := c.target(l, st, t); x != nil {
+						pre = append(pre, fnBind{pat: x.name + " : " + t.coq(), e: "[]", isLet: true})
+					}
+					return wrap(pre, k())
+				}
 				at, ok := call.Args[0].(*ast.ArrayType)
 				if !ok || at.Len != nil || len(call.Args) < 2 || len(call.Args) > 3 {
 					c.lostAt(st, "make")
@@ -929,6 +1022,9 @@ func (c *fnCtx) assign1(st *ast.AssignStmt, l, r ast.Expr, k func() term) term {
 		if _, isLit := r.(*ast.CompositeLit); !isLit {
 			c.lostAt(st, "assignment of a slice value %s (aliasing)", src(r))
 		}
+	}
+	if t.k == "map" || t.k == "obj" {
+		c.lostAt(st, "assignment of a %s value %s (aliasing)", t.k, src(r))
 	}
 	x := c.target(l, st, t)
 	if x == nil {
@@ -1199,7 +1295,7 @@ func (c *fnCtx) loop(ls *loopSpec, k func() term) term {
 	}
 	var stTypes []string
 	for _, x := range state {
-		stTypes = append(stTypes, varType(x))
+		stTypes = append(stTypes, prodType(x))
 	}
 	stType := "unit"
 	if len(stTypes) > 0 {
